@@ -413,6 +413,15 @@ func (cs *Contracts) parseFile(path, src string) error {
 			} else {
 				cur.Ensures = append(cur.Ensures, cl)
 			}
+		case "accepts":
+			if cur == nil {
+				return fmt.Errorf("%s:%d: clause outside func block", path, ln)
+			}
+			cl, err := parseClause(rest)
+			if err != nil {
+				return fmt.Errorf("%s:%d: %v", path, ln, err)
+			}
+			cur.Accepts = append(cur.Accepts, cl)
 		case "loop":
 			if cur == nil {
 				return fmt.Errorf("%s:%d: loop outside func block", path, ln)
@@ -683,6 +692,9 @@ func (cs *Contracts) parseFile(path, src string) error {
 	}
 	return nil
 }
+
+// ParseClauseText parses "label: expr" (for contracts synthesised by a package-wide clause).
+func ParseClauseText(s string) (*Clause, error) { return parseClause(s) }
 
 func parseClause(s string) (*Clause, error) {
 	label := ""
